@@ -63,9 +63,16 @@ namespace cnl {
                 std::declval<elastic_tag<RhsDigits, RhsNarrowest>>()));
         using result_rep = typename result_tag::rep;
 
+        // The result of / and % can have fewer digits than an operand;
+        // operands are converted to a type wide enough for either of them.
+        using operand_rep = set_digits_t<
+                result_rep, std::max(digits_v<result_rep>, std::max(LhsDigits, RhsDigits))>;
+        using result_type = decltype(Operator()(std::declval<result_rep>(), std::declval<result_rep>()));
+
         [[nodiscard]] constexpr auto operator()(Lhs const& lhs, Rhs const& rhs) const
         {
-            return Operator()(static_cast<result_rep>(lhs), static_cast<result_rep>(rhs));
+            return static_cast<result_type>(
+                    Operator()(static_cast<operand_rep>(lhs), static_cast<operand_rep>(rhs)));
         }
     };
 
